@@ -110,3 +110,29 @@ func vpH_C06_loop() {
 	vpSameStrC(string(b), string(want), "C06.loop.reply-bytes")
 	vpReach("C06.loop.end")
 }
+
+// a reply that cannot be encoded is not sent and must not disturb the reply that follows it
+func vpH_C06_failed_then_ok() {
+	seq := vpU8()
+	vpAssume(seq >= 1 && seq < 255)
+	sid := vpU32()
+	flags := vpU8() | 1
+	req := Header{Version: Version{MajorVersion: 0xc, MinorVersion: vpU8() & 1}, Type: Authenticate, SeqNo: SequenceNumber(seq),
+		SessionID: SessionID(sid), Flags: HeaderFlag(flags)}
+	conn := newVPConn(nil)
+	resp := &response{ctx: newVPCtx(), crypter: newCrypter([]byte("k"), conn, false), loggerProvider: &vpLogger{}, header: req}
+	bad := vpInt(0, 1)
+	if bad == 0 {
+		resp.Reply(NewAuthenReply(SetAuthenReplyStatus(AuthenStatus(0)))) // invalid status: refused by the encoder
+	} else {
+		resp.Reply(NewAuthenReply(SetAuthenReplyStatus(AuthenStatusFail), SetAuthenReplyServerMsg(vpConstStr(70000, 'x'))))
+	}
+	vpAssert(len(conn.out) == 0, "C06.unencodable-reply-is-not-sent")
+	resp.Reply(NewAuthenReply(SetAuthenReplyStatus(AuthenStatusError), SetAuthenReplyServerMsg("e")))
+	vpAssert(len(conn.out) == 1, "C06.fallback-reply-sent")
+	if len(conn.out) == 1 && len(conn.out[0]) >= 12 {
+		vpAssert(conn.out[0][2] == seq+1, "C06.fallback-reply-is-seq-plus-one")
+		vpAssert(conn.out[0][3] == flags, "C06.fallback-reply-mirrors-flags")
+	}
+	vpReach("C06.failed_then_ok.end")
+}
